@@ -31,7 +31,7 @@ try:
         if s.count(old) != 1:
             sys.exit(f"{f}: pattern occurs {s.count(old)} times")
         open(p, "w").write(s.replace(old, new))
-    env = dict(os.environ, VERIF_REPO=tmp, VERIF_SEED=a.seed)
+    env = dict(os.environ, VERIF_REPO=tmp, VERIF_SEED=a.seed, VERIF_NO_SHRINK="1")
     rc = {}
     for c in a.checks.split(","):
         cmd = [os.path.join(verif, "check"), c, "--tier", a.tier, "--no-evidence"]
